@@ -123,14 +123,14 @@ func solveObligation(c *Ctx, o *Obligation, budget int) {
 			o.Result = "unknown"
 		}
 	}
-	first := min(budget, 4)
-	r := runSolver(context.Background(), solvers[0], file, first)
-	if r.answer == "sat" || r.answer == "unsat" {
-		finish(r)
-		return
-	}
-	if budget <= first {
-		// still give the other solvers a short chance
+	// floating-point goals: cvc5 is often the only solver that answers quickly, so race at once
+	if !strings.Contains(text, "fp.") {
+		first := min(budget, 2)
+		r := runSolver(context.Background(), solvers[0], file, first)
+		if r.answer == "sat" || r.answer == "unsat" {
+			finish(r)
+			return
+		}
 	}
 	ctx, cancel := context.WithCancel(context.Background())
 	defer cancel()
